@@ -1158,8 +1158,11 @@ impl<Sink: TokenSink> XmlTokenizer<Sink> {
         let _ = self.run(&input);
 
         loop {
-            if !matches!(self.eof_step(), ProcessResult::Continue) {
-                break;
+            match self.eof_step() {
+                // A tag emitted at EOF can make the sink ask for a script pause. There is no
+                // input left to pause for; keep going so that EndOfFile is always delivered.
+                ProcessResult::Continue | ProcessResult::Script(_) => (),
+                ProcessResult::Done => break,
             }
         }
 
